@@ -193,6 +193,10 @@ done:
 								break done
 							}
 						}
+					} else if fi == 0 {
+						// The wrapped root, a Root or At fragment applies to
+						// it whatever it is.
+						stack = append(stack, tv[i])
 					} else {
 						stack = stackAddValue(stack, tv[i])
 					}
